@@ -231,6 +231,8 @@ class ExactGP(GP):
             fantasy_kwargs = {}
 
         full_output = super().__call__(*full_inputs, **kwargs)
+        if isinstance(full_output, MultitaskMultivariateNormal):
+            full_output = full_output._as_interleaved()
 
         # Copy model without copying training data or prediction strategy (since we'll overwrite those)
         old_pred_strat = self.prediction_strategy
@@ -301,6 +303,8 @@ class ExactGP(GP):
             # Get the terms that only depend on training data
             if self.prediction_strategy is None:
                 train_output = super().__call__(*train_inputs, **kwargs)
+                if isinstance(train_output, MultitaskMultivariateNormal):
+                    train_output = train_output._as_interleaved()
 
                 # Create the prediction strategy for
                 self.prediction_strategy = prediction_strategy(
@@ -326,6 +330,9 @@ class ExactGP(GP):
 
             # Get the joint distribution for training/test data
             full_output = super().__call__(*full_inputs, **kwargs)
+            if isinstance(full_output, MultitaskMultivariateNormal):
+                # the prediction strategy splits the joint covariance by data point: it needs the interleaved layout
+                full_output = full_output._as_interleaved()
             if settings.debug().on():
                 if not isinstance(full_output, MultivariateNormal):
                     raise RuntimeError("ExactGP.forward must return a MultivariateNormal")
